@@ -165,6 +165,7 @@ pub const fn s1_{t}(v: {t}) -> {t} { v / 2 }
 pub const fn s2_{t}(v: {t}) -> {t} { v ^ 1 }
 pub const fn p0_{t}(v: &{t}) -> bool { *v % 2 == 0 }
 pub const fn p1_{t}(v: &{t}) -> bool { *v != 7 }
+pub const fn p2_{t}(v: &{t}) -> bool { 12 % *v == 0 }      // partial: panics on 0 (written only behind a bound refusing 0)
 pub fn c0_{t}(v: &{t}) -> Result<(), CErr> {
     if *v % 3 == 0 { Err(CErr((*v % 5) as i64)) } else { Ok(()) }
 }
